@@ -105,6 +105,39 @@ def gen_case(sd, idx):
     return desc
 
 
+def run_sized(case):
+    """conservation over trajectories whose number of values is an exact multiple of 65536 (or one record more), on grids of
+    256 m cells: A <-> B with diffusion, total A + B in every record (exact for tau-leap / Gillespie, to rounding for Euler)"""
+    use_repo()
+    engines.install()
+    import strengths as st
+    sd, idx = case["seed"], case["idx"]
+    r = gen.rng_for(sd, "C02sized", idx)
+    w, h, d = r.choice([(16, 16, 1), (8, 8, 8), (256, 1, 1), (16, 16, 2), (32, 8, 1), (4, 4, 4), (8, 8, 2)])
+    C = w * h * d
+    net = st.RDNetwork([st.Species("A", D=r.uniform(0.2, 1.0), density=0), st.Species("B", D=r.uniform(0.0, 0.6), density=0)],
+                       [st.Reaction("A -> B", kf=0.5, kr=0.2)])
+    bc = {"x": r.choice(["reflecting", "periodical"]), "y": r.choice(["reflecting", "periodical"]), "z": r.choice(["reflecting", "periodical"])}
+    state = [float(r.randint(0, 40)) for _ in range(2 * C)]
+    system = st.RDSystem(net, st.RDGridSpace(w=w, h=h, d=d, boundary_conditions=bc), state=state)
+    K = max(2, (65536 // (2 * C)) * r.choice([1, 1, 2]) + r.choice([0, 0, 1]))
+    kind_ = engines.KINDS[idx % 3]
+    dt = 0.01
+    script = st.RDScript(system, t_sample=[0.0], t_max=(K - 1.5) * dt if kind_ != "gillespie" else 1e9, time_step=dt, sampling_policy="on_iteration",
+                         rng_seed=r.randrange(2 ** 31), init_state_processing="none")
+    t, dd, complete, out = simhelp.run_script(kind_, script, K - 1)
+    tot = dd.reshape(dd.shape[0], -1).sum(axis=1)
+    want = float(sum(state))
+    bad = []
+    tol = 0.0 if kind_ != "euler" else 1e-9 * want
+    j = next((j for j in range(len(tot)) if abs(tot[j] - want) > tol), None)
+    if j is not None:
+        bad.append({"what": "%s: total A + B is not constant over a trajectory of %d values" % (kind_, dd.size), "record": j, "records": int(dd.shape[0]),
+                    "total": float(tot[j]), "expected": want, "grid": [w, h, d], "case": case})
+    return {"bad": bad, "counts": {"sized_trajectories": 1, "sized_trajectories_multiple_of_65536": int(dd.size % 65536 == 0)},
+            "key": chash(["sized", sd, idx]), "nontrivial": True, "sample": {"seed": sd, "idx": idx, "grid": [w, h, d], "records": int(dd.shape[0]), "engine": kind_}}
+
+
 def run_case(case):
     use_repo()
     engines.install()
@@ -143,6 +176,12 @@ def run_case(case):
         if kind_ == "tauleap" and r.random() < 0.4:
             dt_k = dt * r.choice([10.0, 40.0])      # coarse leaps: draws exceed what the cells hold, counts undershoot below zero
             nsteps = 60
+        if kind_ == "euler" and r.random() < 0.2:
+            # steps beyond the stability limit (entries overshoot below zero): a few of them only, totals are still conserved
+            dt_k = dt * r.choice([60.0, 150.0])
+            nsteps = 4
+            policy = "on_iteration"
+            cnt("euler_overshooting_runs")
         if case.get("long"):
             nsteps *= 10
         horizon = nsteps * dt_k if kind_ != "gillespie" else nsteps / max(sum(mag), 1e-9)
@@ -237,6 +276,8 @@ def main():
     from vf.common import seed as _seed, tier as _tier
     _run_extra(run, "vf.history:h_network_swap", [{"seed": _seed(), "idx": _i} for _i in range(800 if _tier() == "thorough" else 80)], cpu_budget=120, kind_prefix="history: ")
     _run_extra(run, "vf.history:h_fractional_stochastic", [{"seed": _seed(), "idx": _i} for _i in range(1200 if _tier() == "thorough" else 120)], cpu_budget=60, kind_prefix="history: ")
+    _run_extra(run, "vf.checks.c02:run_sized", [{"seed": _seed(), "idx": _i} for _i in range(200 if _tier() == "thorough" else 30)], cpu_budget=300)
+    run.require("sized_trajectories_multiple_of_65536")
     return run.finish()
 
 
